@@ -181,14 +181,6 @@ def probe_forms(fd, rnd):
             names.append(("none",) if g["t"] == "none" else (alts[0] if alts else None))
         if all(n is not None for n in names) and (fd["opt"] or not has_none_member(f)):
             out.append({"annot": True, "ty": ("or", names[0], names[1]), "eq": None, "kw": None, "opt": fd["opt"]})
-    if f["t"] == "tuple" and len(f["items"]) == 1 and not f.get("uniq") and fd["default"] is None:
-        alts = [s for s in P.forms(f["items"][0], "general", rnd) if s[0] == "name"]
-        if alts:
-            out.append({"annot": True, "ty": ("pep585", "tuple", [alts[0]]), "eq": None, "kw": None, "opt": fd["opt"]})
-        alts = [s for s in P.forms(f["items"][0], "fieldy", rnd) if s[0] == "fcls"]
-        if alts:
-            out.append({"annot": False, "ty": ("ctor1", "Tuple", alts[0], P.NO_SZ, False), "eq": None, "kw": None,
-                        "opt": fd["opt"]})
     return out
 
 
@@ -373,6 +365,33 @@ def mutable_default_lattice(ctx, idx0, tier):
             variants = [{"decls": [decls[0]], "changed": None}] + [{"decls": [x], "changed": 0} for x in decls[1:]]
             cases.append({"idx": idx0 + len(cases), "members": [m], "variants": _dedup_variants(["a"], variants),
                           "lattice": "mutable-default"})
+    return cases
+
+
+TUPLE_LATTICE_ITEMS = [{"t": "num", "k": "Integer", "s": "Any"}, {"t": "str"}, {"t": "num", "k": "Float", "s": "Any"},
+                       {"t": "seqeach", "k": "list", "item": {"t": "num", "k": "Integer", "s": "Any"}, "sz": [None, None],
+                        "uniq": False}]
+
+
+def tuple_lattice(ctx, idx0, tier):
+    """A one-item Tuple field (every element of that kind, any length) over each item of TUPLE_LATTICE_ITEMS, with and
+    without uniqueItems, in EVERY spelling: tuple[int], typing.Tuple[int], Tuple[Integer], Tuple[int], Tuple(items=Integer),
+    Tuple(items=Integer()), Tuple(items=[Integer]) ..., as annotation and as assignment.  Independent of VERIF_SEED.
+    (Tuple(items=<one Field class>) once kept the class un-instantiated: C13/tuple/single-class-item.)"""
+    rnd = random.Random(55)
+    cases = []
+    for item in TUPLE_LATTICE_ITEMS:
+        for uniq in (False, True):
+            f = {"t": "tuple", "items": [dict(item)], "uniq": uniq}
+            m = {"name": "a", "f": f, "opt": False, "default": None}
+            forms = []
+            for _ in range(4):                 # the spelling of the item is drawn: several draws, de-duplicated below
+                forms += decl_forms(m, rnd, ctx)
+            if len(forms) < 2:
+                continue
+            variants = [{"decls": [forms[0]], "changed": None}] + [{"decls": [x], "changed": 0} for x in forms[1:]]
+            cases.append({"idx": idx0 + len(cases), "members": [m], "variants": _dedup_variants(["a"], variants),
+                          "lattice": "tuple-single-item"})
     return cases
 
 
@@ -1071,6 +1090,7 @@ def run(rep, tier):
         cases += default_lattice(ctx, len(cases), tier)
         cases += mutable_default_lattice(ctx, len(cases), tier)
         cases += future_length_lattice(ctx, len(cases), tier)
+        cases += tuple_lattice(ctx, len(cases), tier)
         batch = 35
         t1 = time.time()
         for s0 in range(0, len(cases), batch):
@@ -1230,7 +1250,7 @@ def run(rep, tier):
              "ALL members respelled, each realised with and without `from __future__ import annotations`; deterministic "
              "lattices (independent of VERIF_SEED): union shapes (arity 2-4 x position of None x nesting x member spelling x "
              "listed/unlisted), scalar defaults x declaration forms, mutable defaults x declaration forms, annotation lengths "
-             "around the __future__ bound; candidate values = valid / one-point corruption / arbitrary / None / absent per "
+             "around the __future__ bound, one-item Tuple fields (4 item kinds x uniqueItems) in every spelling; candidate values = valid / one-point corruption / arbitrary / None / absent per "
              "member, plus deserialization of the serialized form; correspondence cases = every distinct (context, spelling) "
              "and declaration used (lattices first), Cls[...] context and wrong-kind corruptions, and the declarations again "
              "under the __future__ import with the length of the stored annotation text; distinct = distinct spelling "
